@@ -557,3 +557,7 @@ mod test {
         assert_eq!(result_12, expected_12);
     }
 }
+
+#[cfg(any(kani, ruffle_rs_h263_rs_verif))]
+#[path = "/verif/hooks/deblock/deblock.rs"]
+mod verif_hook;
